@@ -59,6 +59,9 @@ def dig_rng():
     return h(st[1], st[2], st[3])
 
 
+DEFAULT_ERRSTATE = {'divide': 'warn', 'over': 'warn', 'under': 'ignore', 'invalid': 'warn'}
+
+
 class World:
     ARR = ['A', 'O', 'M', 'M3', 'E', 'E3', 'IMG', 'OUT', 'SCR', 'F', 'HOLD']
 
@@ -74,7 +77,7 @@ class World:
         self.E3 = rm.generic_real((2, 3, 3), seed, tag=4, lo=0, hi=40)
         self.IMG = rm.generic_real((5, 6), seed, tag=5, lo=0.5, hi=3)
         self.OUT = np.zeros((12, 10))
-        self.SCR = np.full((14, 14), 3 - 1j)
+        self.SCR = np.full((18, 18), 3 - 1j)
         self.F = rm.generic_complex((4, 5), seed, tag=6)
         self.HOLD = None
         self.P = None
@@ -86,6 +89,7 @@ class World:
         self.frozen = frozen
         np.random.seed(4242)
         self.rng_state = np.random.get_state()     # the global generator is part of the explored state
+        self.errstate = dict(DEFAULT_ERRSTATE)       # so is numpy's floating-point error handling
         if frozen:
             for n in ('A', 'O', 'M', 'M3', 'E', 'E3', 'IMG', 'F'):
                 getattr(self, n).flags.writeable = False
@@ -97,6 +101,7 @@ class World:
         d['W2'] = dig_wf(self.W2)
         d['S1'] = dig_spec(self.S1)
         d['S2'] = dig_spec(self.S2)
+        d['numpy-errstate'] = repr(sorted(self.errstate.items()))
         return d
 
 
@@ -127,6 +132,20 @@ def ev_mkP_seg(w):
     return (h(w.A), h(w.O), h(w.M3)), dig_plane(w.P)
 
 
+def ev_mkP_scalar(w):
+    import lentil
+    w.P = lentil.Pupil(amplitude=0.5, opd=w.O, mask=w.M, pixelscale=DX, focal_length=Z)      # scalar amplitude, array mask
+    w.total = np.array(w.O, copy=True)
+    return (h(w.O), h(w.M), 'scalar'), dig_plane(w.P)
+
+
+def ev_mul_bare(w):
+    import lentil
+    # a pupil that carries nothing but a focal length: the product is a new wavefront, the operand keeps its own focal length
+    r = w.W * lentil.Pupil(focal_length=20.0)
+    return (dig_wf(w.W), 'bare'), (dig_wf(r), r is w.W)
+
+
 def ev_mul(w):
     import lentil
     w.W = lentil.Wavefront(WL) * w.P
@@ -154,8 +173,15 @@ def ev_prop_dft(w):
 
 def ev_prop_fft(w):
     import lentil
-    w.W2 = lentil.propagate_fft(w.W, DU * 1.0, shape=(4, 4), oversample=1, scratch=w.SCR)
-    return (dig_wf(w.W),), dig_wf(w.W2)
+    du = (DU, DU / 2)                      # per-axis output sampling: the padded grid is wider than tall
+    w.W2 = lentil.propagate_fft(w.W, du, shape=(4, 4), oversample=1, scratch=w.SCR)
+    first = dig_wf(w.W2)
+    again = lentil.propagate_fft(w.W, du, shape=(4, 4), oversample=1, scratch=w.SCR)
+    held = dig_wf(w.W2)
+    return (dig_wf(w.W),), first, [(dig_wf(again) == first, 'history-dependent:prop_fft:same-scratch-twice',
+                                     'the identical propagate_fft call through the same scratch buffer returns a different field the second time'),
+                                    (held == first, 'mutates:prop_fft:earlier-result',
+                                     'the wavefront returned by the first call changed when the scratch buffer was used again')]
 
 
 def ev_fit_copy(w):
@@ -186,9 +212,11 @@ def ev_opd_add_b(w):
 
 
 def ev_rescale(w):
+    import lentil
     a = dig_plane(w.P)
     q = w.P.rescale(2)
-    return (a,), dig_plane(q)
+    f = lentil.Wavefront(WL) * q          # the rescaled plane is used, not only inspected
+    return (a,), (dig_plane(q), dig_wf(f))
 
 
 def ev_dft2_a(w):
@@ -228,10 +256,10 @@ def seeded(fn):
     """seeded functions: the global generator is neither read nor advanced"""
     def run(w):
         g0 = dig_rng()
-        args, res = fn(w)
+        out = fn(w)
         if dig_rng() != g0:
             raise GlobalRNG('advanced')
-        return args, res
+        return out
     return run
 
 
@@ -286,6 +314,25 @@ def ev_zfit_b(w):
 def ev_spec_sample_b(w):
     r = w.S1.sample(np.array([450.0, 650.0]), method='quadratic')
     return (dig_spec(w.S1), 'sample_b'), h(np.round(np.asarray(r), 9))
+
+
+def ev_shot_reject(w):
+    import lentil
+    ok = False
+    try:
+        lentil.detector.shot_noise(np.array([[4.0, -1.0], [9.0, 2.0]]), method='gaussian', seed=3)
+    except ValueError:
+        ok = True
+    return ('reject',), ok
+
+
+def ev_divide(w):
+    # an unrelated caller computation that relies on numpy's default error handling (inf / nan, no exception)
+    with warnings.catch_warnings():
+        warnings.simplefilter('ignore')
+        r = (w.S1 / (w.S1 * 0)).value
+        r2 = np.array([1.0, 0.0]) / np.array([0.0, 0.0])
+    return ('divide',), h(np.nan_to_num(np.asarray(r), nan=-1, posinf=-2), np.nan_to_num(r2, nan=-1, posinf=-2))
 
 
 def ev_global_rand(w):
@@ -379,13 +426,13 @@ hasW = lambda w: w.W is not None and len(w.W.shape) == 2
 hasAny = lambda w: (w.W2 is not None) or hasW(w)
 always = lambda w: True
 EVENTS = {
-    'mkP_mask': (always, ev_mkP_mask, {'P'}), 'mkP': (always, ev_mkP, {'P'}), 'mkP_seg': (always, ev_mkP_seg, {'P'}),
+    'mkP_mask': (always, ev_mkP_mask, {'P'}), 'mkP_scalar': (always, ev_mkP_scalar, {'P'}), 'mul_bare': (hasW, ev_mul_bare, set()), 'mkP': (always, ev_mkP, {'P'}), 'mkP_seg': (always, ev_mkP_seg, {'P'}),
     'mul': (hasP, ev_mul, {'W'}), 'mul_tilt': (hasW, ev_mul_tilt, set()), 'mul_again': (hasP, ev_mul_again, set()), 'prop_dft': (hasW, ev_prop_dft, {'W2'}), 'prop_fft': (lambda w: hasW(w) and not any(f.tilt for f in w.W.data), ev_prop_fft, {'W2', 'SCR'}),
     'fit_copy': (hasP, ev_fit_copy, {'P'}), 'fit_inplace': (hasP, ev_fit_inplace, {'P'}),
     'opd_add': (hasP, ev_opd_add, {'P'}), 'opd_add_b': (hasP, ev_opd_add_b, {'P'}), 'rescale': (hasP, ev_rescale, set()),
     'dft2_a': (always, ev_dft2_a, {'HOLD'}), 'dft2_b': (always, ev_dft2_b, set()), 'dft2_c': (always, ev_dft2_c, set()), 'idft2': (always, ev_idft2, set()),
     'adc': (always, ev_adc, set()), 'shot': (always, ev_shot, set()), 'read': (always, ev_read, set()), 'dark': (always, ev_dark, set()),
-    'psd': (always, ev_psd, set()), 'psd_b': (always, ev_psd_b, set()), 'zfit_b': (always, ev_zfit_b, set()), 'spec_sample_b': (always, ev_spec_sample_b, set()), 'global_rand': (always, ev_global_rand, set()), 'smear_random': (always, ev_smear_random, set()),
+    'shot_reject': (always, ev_shot_reject, set()), 'divide': (always, ev_divide, set()), 'psd': (always, ev_psd, set()), 'psd_b': (always, ev_psd_b, set()), 'zfit_b': (always, ev_zfit_b, set()), 'spec_sample_b': (always, ev_spec_sample_b, set()), 'global_rand': (always, ev_global_rand, set()), 'smear_random': (always, ev_smear_random, set()),
     'pixel': (always, ev_pixel, set()), 'jitter': (always, ev_jitter, set()), 'smear': (always, ev_smear, set()),
     'collect': (always, ev_collect, set()), 'bayer': (always, ev_bayer, set()), 'spec_mul': (always, ev_spec_mul, set()),
     'spec_sample': (always, ev_spec_sample, set()), 'spec_integrate': (always, ev_spec_integrate, set()), 'spec_bin': (always, ev_spec_bin, set()),
@@ -420,8 +467,12 @@ def step(w, name, hist, acc, memo):
     case = {'kind': 'hist', 'frozen': w.frozen, 'events': hist}
     before = w.digests()
     np.random.set_state(w.rng_state)
+    np.seterr(**w.errstate)
+    extra = []
     try:
-        args, res = fn(w)
+        out = fn(w)
+        args, res = out[0], out[1]
+        extra = out[2] if len(out) > 2 else []
     except GlobalRNG:
         acc.violation(f'rng:{name}:global-state-advanced', case, f'{name} is seeded but advanced the global numpy generator')
         args, res = None, None
@@ -438,6 +489,11 @@ def step(w, name, hist, acc, memo):
         w.dead = True
         return
     w.rng_state = np.random.get_state()
+    w.errstate = dict(np.geterr())
+    np.seterr(**DEFAULT_ERRSTATE)
+    for ok, key, msg in extra:
+        if not ok:
+            acc.violation(f'{key}', case, msg)
     after = w.digests()
     for item in before:
         if before[item] != after[item] and item not in allowed:
@@ -452,7 +508,7 @@ def step(w, name, hist, acc, memo):
         else:
             memo[key] = (res, hist, name, w.frozen)
     # (3) path independence of plane states: equal (amplitude, mask, OPD + recorded tilt) => equal propagated field
-    if name in ('fit_copy', 'fit_inplace', 'opd_add', 'opd_add_b', 'mkP', 'mkP_mask', 'mkP_seg') and w.P is not None:
+    if name in ('fit_copy', 'fit_inplace', 'opd_add', 'opd_add_b', 'mkP', 'mkP_mask', 'mkP_seg', 'mkP_scalar') and w.P is not None:
         try:
             key, eff = plane_state_key(w)
             wf = lentil.Wavefront(WL) * w.P
@@ -506,6 +562,7 @@ def rebuild(seed, frozen, hist):
     """A state is the history that reaches it: fresh world, cold library caches, events replayed.  This makes every
     hidden process-global (the DFT coordinate LRU cache, the numpy global generator) a function of the history."""
     engine.reset_library_state()
+    np.seterr(**DEFAULT_ERRSTATE)
     w = World(seed, frozen)
     w.dead = False
     silent = _Silent()
